@@ -48,6 +48,12 @@ def run(model, res, tier):
     H.safely(res, 'R2', 'r2', _r2, ctx)
     H.safely(res, 'R3', 'r3', _r3, ctx)
     H.safely(res, 'R4', 'r4', _r4, ctx)
+    res.rule('R13', 'a parser made by the copy methods of the class raises its events on its own listeners (shared with C03.R6)')
+
+    def _copies(tmp):
+        from . import c03
+        c03.copies_are_independent(model, tmp, c, 'R13')
+    H.borrow(res, 'R13', 'copies', _copies)
     res.rule('R12', 'the grammar hands the value a reference callback answers on unchanged, up to the expression, for every kind of value')
     H.safely(res, 'R12', 'reference values', reference_value_rule, model, res, c, 'R12', ('call_cell_value', 'call_range_value'))
     H.safely(res, 'R7', 'r7', _r7, ctx)
